@@ -230,7 +230,99 @@ fn jitter_walk(sub: &str, id: u64, r: &mut Report) {
     r.distinct(hkey(&[&"jitter_walk", &id]));
 }
 
+/// rewrite every numeric array (and, in flat objects, every numeric member) of a
+/// serialized generator into a degenerate pattern
+fn degenerate_value(v: &mut serde_json::Value, mode: u64, word: u64) {
+    use serde_json::Value;
+    match v {
+        Value::Array(a) if a.len() >= 4 && a.iter().all(|x| x.is_u64()) => {
+            let n = a.len();
+            for (i, x) in a.iter_mut().enumerate() {
+                let nv = match mode {
+                    0 => word,                                   // all words equal
+                    1 => 0,                                      // all zero
+                    2 => i as u64,                               // 0, 1, 2, ...
+                    3 => if i % 2 == 0 { word } else { !word & 0xffff_ffff }, // alternating
+                    4 => if i == n / 2 { word ^ 1 } else { word },           // all equal but one
+                    _ => 0xffff_ffff,                            // all ones (32 bit)
+                };
+                *x = Value::from(nv);
+            }
+        }
+        Value::Array(a) => a.iter_mut().for_each(|x| degenerate_value(x, mode, word)),
+        Value::Object(m) => {
+            let flat = m.values().all(|x| x.is_u64());
+            for (k, x) in m.iter_mut() {
+                if flat && m_is_state_key(k) {
+                    *x = Value::from(if mode == 1 { 0 } else { word & 0xffff_ffff });
+                } else {
+                    degenerate_value(x, mode, word);
+                }
+            }
+        }
+        _ => {}
+    }
+}
+fn m_is_state_key(k: &str) -> bool {
+    matches!(k, "x" | "y" | "z" | "w")
+}
+
+/// Degenerate states installed through serde (the only route to them besides a
+/// pre-image under the seeding function): all state words equal / zero / counting /
+/// alternating. The Debug text must be the text of any other instance of the type.
+fn degenerate_case(sub: &str, id: u64, r: &mut Report) {
+    let mut p = Prng::new(id);
+    let mode = id % 6;
+    let word = match p.below(3) { 0 => 0x5eed_1234, 1 => 1, _ => p.u64() & 0xffff_ffff };
+    let seed = p.bytes(32);
+    let pattern_name = ["all_equal", "all_zero", "counting", "alternating", "all_equal_but_one", "all_ones"][mode as usize];
+    macro_rules! go {
+        ($name:expr, $ty:ty, $mk:expr) => {{
+            let ordinary: $ty = $mk;
+            let mut doc = serde_json::to_value(&ordinary).expect("serialize");
+            degenerate_value(&mut doc, mode, word);
+            // (XorShiftRng refuses nothing; an all-zero xorshift state is still a value of the type)
+            match serde_json::from_value::<$ty>(doc.clone()) {
+                Ok(deg) => {
+                    let (a, b) = (fmt_both(&ordinary), fmt_both(&deg));
+                    r.eval();
+                    if a != b {
+                        r.violation(format!("{}:debug_depends_on_state:degenerate_state", $name), sub, id, json!({
+                            "type": $name, "pattern": pattern_name, "word": hx64(word),
+                            "ordinary": a.0, "degenerate": b.0, "ordinary_alt": a.1, "degenerate_alt": b.1}));
+                        return;
+                    }
+                    // the same through a clone and after one draw from the clone
+                    // (the wrappers print their public read position: compare at the same one)
+                    let mut c = deg.clone();
+                    let _ = c.next_u32();
+                    let mut oc = ordinary.clone();
+                    let _ = oc.next_u32();
+                    r.eval();
+                    if fmt_both(&c) != fmt_both(&oc) {
+                        r.violation(format!("{}:debug_depends_on_state:degenerate_state", $name), sub, id, json!({"type": $name, "after": "clone + one draw", "text": fmt_both(&c).0}));
+                        return;
+                    }
+                    r.cov(&format!("degenerate:{}", $name));
+                }
+                Err(_) => r.cov(&format!("degenerate_rejected:{}", $name)),
+            }
+        }};
+    }
+    let s32: [u8; 32] = seed[..32].try_into().unwrap();
+    let s16: [u8; 16] = seed[..16].try_into().unwrap();
+    match (id / 6) % 3 {
+        0 => go!("IsaacRng", rand_isaac::IsaacRng, { let mut g = rand_isaac::IsaacRng::from_seed(s32); for _ in 0..p.below(300) { g.next_u32(); } g }),
+        1 => go!("Isaac64Rng", rand_isaac::Isaac64Rng, { let mut g = rand_isaac::Isaac64Rng::from_seed(s32); for _ in 0..p.below(300) { g.next_u32(); } g }),
+        _ => go!("XorShiftRng", rand_xorshift::XorShiftRng, rand_xorshift::XorShiftRng::from_seed(s16)),
+    }
+    r.distinct(hkey(&[&"degenerate", &id]));
+}
+
 fn case(sub: &str, id: u64, r: &mut Report) {
+    if sub == "degenerate" {
+        return degenerate_case(sub, id, r);
+    }
     if sub == "jitter_walk" {
         return jitter_walk(sub, id, r);
     }
@@ -331,6 +423,10 @@ pub fn run(ctx: &Ctx, only: Option<&Only>) -> Report {
     let mut total = drive(ctx, "pairs", 16_000, secs, |id, r| case("pairs", id, r));
     total.merge(drive(ctx, "special", 2_000, 0.0, |id, r| case("special", id, r)));
     total.merge(drive(ctx, "jitter_walk", 160, 0.0, |id, r| case("jitter_walk", id, r)));
+    total.merge(drive(ctx, "degenerate", 720, 0.0, |id, r| case("degenerate", id, r)));
+    for n in ["IsaacRng", "Isaac64Rng", "XorShiftRng"] {
+        total.floor(&format!("degenerate:{}", n), 100);
+    }
     total.floor("jitter_walk_observations", 100_000);
     for n in SUBJECTS {
         total.floor(&format!("type:{}", n), 100);
